@@ -1,6 +1,7 @@
 import YncaVerif.Lemmas.AcceptProj
 import YncaVerif.Lemmas.AcceptC16
 import YncaVerif.Lemmas.AcceptC12
+import YncaVerif.Lemmas.AcceptC20
 /-! # The tie itself, as theorems
 
 The B2 correspondence offers every observable trace of the real library to the compiled acceptor
@@ -119,6 +120,30 @@ theorem Tie_C12_observed_gap (P : Params) (hidden : List String) (evs : List (Na
     simp only [hwr]
   rw [hlast, hnow] at hgap
   exact hgap
+
+/-- **C20 on the observed trace** (bounded, and faithful for what was sent): in every accepted trace (writes visible) a log snapshot
+    holds at most `P.logSize` entries, and its `Send` entries are the END of the sequence "every line written so far, in
+    transmission order, plus at most one line that is logged but not yet written" — nothing invented, nothing reordered, nothing
+    skipped in between -/
+theorem Tie_C20_observed_snapshot (P : Params) (hidden : List String) (evs : List (Nat × Ev))
+    (hw : hidden.contains "write" = false) (h : (accept P hidden evs).accepted = true)
+    (pre rest : List (Nat × Ev)) (tm : Nat) (es : List LogEntry) (he : evs = pre ++ (tm, Ev.snapshot es) :: rest) :
+    es.length ≤ P.logSize ∧
+    ∃ extra, extra.length ≤ 1 ∧ sendsOf es <:+ (traceWrites pre).map (·.2) ++ extra := by
+  obtain ⟨s, hs⟩ := accept_sound P hidden evs h
+  have he' : evs = (pre ++ [(tm, Ev.snapshot es)]) ++ rest := by rw [he]; simp
+  obtain ⟨s1, hs1⟩ := hs.prefix _ _ he'
+  obtain ⟨s0, hpre, hring⟩ := hs1.last_snapshot pre tm es rfl
+  subst hring
+  refine ⟨ring_length _ _, ?_⟩
+  obtain ⟨extra, hex, hlen⟩ := sends_faithful P s0 hpre.reachable
+  refine ⟨extra, hlen, ?_⟩
+  have hsuf : sendsOf (logRing P s0) <:+ logSends s0 := by
+    unfold sendsOf logSends logRing
+    exact (ring_suffix _ _).filterMap _
+  have hwt : wireTexts s0 = (traceWrites pre).map (·.2) := by
+    rw [hpre.writes hw]; simp [wireTexts, wireTT, Function.comp_def]
+  rw [← hwt, ← hex]; exact hsuf
 
 /-! non-vacuity: the acceptor accepts the start of a real session (reader started, two probes 100 ms apart)
 and rejects the same trace with the second probe 50 ms early -/
